@@ -1,5 +1,7 @@
 //! World-B property checks: C01, C02, C08, C09, C10, C16 (+ router half of C11)
 use super::ps::{self, PsCase, PsFacts, PsGen};
+use super::direct::{self, DCase, DFacts};
+use super::rr::{self, RrCase, RrFacts, RrGen, RrOpts};
 use crate::core::{Ctx, Outcome, Tier};
 
 fn ps_labels(f: &PsFacts) -> Vec<&'static str> {
@@ -111,3 +113,266 @@ pub fn replay_ps(ctx_id: &str, case: &serde_json::Value) -> i32 {
 
 #[allow(dead_code)]
 pub fn tier_cases(t: Tier, q: u32, th: u32) -> u32 { t.pick(q, th) }
+
+// ---------------------------------------------------------------- req/rep
+fn rr_labels(f: &RrFacts) -> Vec<&'static str> {
+    let mut l = vec![];
+    if f.sink_pendings > 0 { l.push("sink-returned-pending"); }
+    if f.pending_while_reply_in_flight { l.push("requestor-sink-blocked-while-reply-in-flight"); }
+    if f.requestors_with_exchange >= 2 { l.push("two-requestors-completed-exchanges"); }
+    if f.forged > 0 { l.push("requestor-supplied-routing-tag"); }
+    if f.bad_tags > 0 { l.push("reply-with-bad-tag"); }
+    if f.cross_tags > 0 { l.push("reply-tagged-for-other-requestor"); }
+    if f.rejected > 0 { l.push("replier-rejected"); }
+    if f.rejected_back_to_back { l.push("two-rejections-back-to-back"); }
+    if f.rejected_sink_pending { l.push("rejected-replier-sink-pending"); }
+    if f.rebinds > 0 { l.push("rebind-after-departure"); }
+    if f.must_reject > 0 { l.push("model-must-reject"); }
+    if f.ambiguous > 0 { l.push("model-ambiguous-binding"); }
+    if f.one_sided { l.push("one-sided-population"); }
+    if f.closed { l.push("closed-mid-history"); }
+    if f.close_with_blocked_or_buffered { l.push("close-with-blocked-or-buffered-sink"); }
+    if f.close_after_socket { l.push("close-right-after-registration"); }
+    if f.faults_observed > 0 { l.push("fault-observed-by-router"); }
+    if f.junk > 0 { l.push("non-message-frame-mid-stream"); }
+    if f.big_over > 0 { l.push("request-oversize-after-tagging"); }
+    if f.probe_ok { l.push("probe-exchange-completed"); }
+    l
+}
+
+pub fn rr_eval(opts: RrOpts, nontrivial: fn(&RrFacts) -> bool) -> impl Fn(&RrCase) -> Outcome + Send + Sync + 'static {
+    move |c: &RrCase| {
+        crate::core::watchdog::tick();
+        let (o, f) = rr::run_case(c, opts);
+        match o {
+            Outcome::Pass { .. } => Outcome::pass(rr_labels(&f), nontrivial(&f)),
+            o => o,
+        }
+    }
+}
+
+pub fn rr_exhaustive(ctx: &mut Ctx, leg: &str, alpha: &[rr::RrOp], maxlen: usize, opts: RrOpts, nontrivial: fn(&RrFacts) -> bool) {
+    use std::sync::{Arc, Mutex};
+    let k = alpha.len() as u64;
+    let t0 = std::time::Instant::now();
+    let (mut total, mut nontriv) = (0u64, 0u64);
+    let mut first_fail: Option<(RrCase, String, String)> = None;
+    'outer: for len in 0..=maxlen {
+        let n = k.pow(len as u32);
+        let workers = ctx.workers.max(1) as u64;
+        let chunk = (n + workers - 1) / workers;
+        let res: Arc<Mutex<(u64, u64, Option<(RrCase, String, String)>)>> = Arc::new(Mutex::new((0, 0, None)));
+        std::thread::scope(|sc| {
+            for w in 0..workers {
+                let (from, to) = (w * chunk, ((w + 1) * chunk).min(n));
+                if from >= to { continue; }
+                let res = res.clone();
+                sc.spawn(move || {
+                    let (mut t, mut nt) = (0u64, 0u64);
+                    let mut ff = None;
+                    for case in rr::enumerate_seqs(alpha, len, from, to) {
+                        if t % 4096 == 0 { crate::core::watchdog::tick(); }
+                        t += 1;
+                        let (o, f) = rr::run_case(&case, opts);
+                        match o {
+                            Outcome::Fail { clause, detail } => { ff = Some((case, clause, detail)); break; }
+                            _ => if nontrivial(&f) { nt += 1 },
+                        }
+                    }
+                    let mut r = res.lock().unwrap();
+                    r.0 += t; r.1 += nt;
+                    if r.2.is_none() { r.2 = ff; }
+                });
+            }
+        });
+        let r = Arc::try_unwrap(res).ok().unwrap().into_inner().unwrap();
+        total += r.0; nontriv += r.1;
+        if let Some(f) = r.2 { first_fail = Some(f); break 'outer; }
+    }
+    ctx.add_evaluations(total);
+    for i in 0..nontriv.min(2_000_000) { ctx.add_nontrivial_hash(crate::core::mix(i, crate::core::hash_of(&leg))); }
+    ctx.extra.insert(leg.to_string(), serde_json::json!({
+        "exhaustive": first_fail.is_none(), "alphabet": alpha, "max_len": maxlen, "sequences": total,
+        "nontrivial": nontriv, "wall_s": t0.elapsed().as_secs_f64()}));
+    if first_fail.is_none() { ctx.exhaustive = Some(true); }
+    if let Some((case, clause, detail)) = first_fail {
+        ctx.report_violation_raw(leg, &case, &clause, &detail);
+    }
+}
+
+pub fn c02_nontrivial(f: &RrFacts) -> bool {
+    f.requestors_with_exchange >= 2 && (f.pending_while_reply_in_flight || f.sink_pendings > 0 || f.forged > 0 || f.bad_tags > 0 || f.cross_tags > 0)
+}
+
+pub fn c02(ctx: &mut Ctx) {
+    ctx.rule = "req/rep op sequences (RegReq/RegRep/Request(header variants incl. requestor-supplied cid)/Reply(tag mutations: removed, no headers, unknown, malformed, other requestor's)/End*/PushErr*/Block/Unblock/Run/Poll/Settle, 0-70 ops, <=3 requestors, <=5 repliers; no CloseChannel) against the real reqrep::Topic + sink::Router with mock peers; non-trivial = >=2 requestors each completed an exchange AND (a sink returned Pending, or a requestor-supplied/forged tag, or a bad/cross tag reply occurred); distinct by hash of the op sequence".into();
+    ctx.assumptions.push("routing tags are treated as opaque tokens learned from the first request of each requestor".into());
+    ctx.assumptions.push("requests pulled while no replier is surely bound may be dropped (at most once)".into());
+    ctx.assumptions.push("reply order towards one requestor is not constrained".into());
+    let g = RrGen { faults: false, close: false, wake_only: false, junk: false, big: false, many_repliers: false, max_len: 70, prelude: true };
+    ctx.search("rr-mixed", move || rr::case_strategy(g), ctx.tier.pick(100_000, 3_000_000), true, rr_eval(RrOpts::default(), c02_nontrivial));
+    if ctx.failed() { return; }
+    let g = RrGen { wake_only: true, ..g };
+    ctx.search("rr-wake-only", move || rr::case_strategy(g), ctx.tier.pick(50_000, 1_500_000), true, rr_eval(RrOpts::default(), c02_nontrivial));
+    if ctx.failed() { return; }
+    let alpha = rr::small_alphabet(false);
+    rr_exhaustive(ctx, "rr-exhaustive", &alpha, ctx.tier.pick(5, 7), RrOpts::default(), c02_nontrivial);
+}
+
+pub fn c10_nontrivial(f: &RrFacts) -> bool {
+    f.repliers >= 2 && f.rejected >= 1 && (f.rejected_back_to_back || f.rejected_sink_pending || f.rebinds > 0)
+}
+
+pub fn c10(ctx: &mut Ctx) {
+    ctx.rule = "req/rep op sequences biased to several replier registrations/departures (1-5 repliers) interleaved with requests, replies and block/unblock of any sink incl. the rejected repliers' sinks; binding reference model: FIFO registration, a replier registered while an earlier one is surely bound must see exactly [Error(REPLIER_ALREADY_BOUND)] then close, a replier registered after all earlier ones surely left must be bound and served; non-trivial = >=2 repliers, >=1 rejected, and (two rejections back-to-back, or a rejected sink returned Pending, or a rebind happened)".into();
+    ctx.assumptions.push("'surely' = separated by a Settle (spurious polls + run) with no sink blocked; otherwise either outcome (bound or properly rejected) is accepted, never a half-rejected replier".into());
+    let g = RrGen { faults: false, close: false, wake_only: false, junk: false, big: false, many_repliers: true, max_len: 60, prelude: false };
+    ctx.search("rr-repliers", move || rr::case_strategy(g), ctx.tier.pick(120_000, 3_000_000), true, rr_eval(RrOpts { probe: true }, c10_nontrivial));
+    if ctx.failed() { return; }
+    let g = RrGen { wake_only: true, ..g };
+    ctx.search("rr-repliers-wake-only", move || rr::case_strategy(g), ctx.tier.pick(50_000, 1_000_000), true, rr_eval(RrOpts { probe: true }, c10_nontrivial));
+    if ctx.failed() { return; }
+    let alpha = vec![
+        rr::RrOp::RegReq { cap: 2 }, rr::RrOp::RegRep { cap: 0 }, rr::RrOp::RegRep { cap: 2 }, rr::RrOp::Request { r: 0, hdr: 0 },
+        rr::RrOp::Reply { k: 0, which: 0, mutation: 0 }, rr::RrOp::EndRep { k: 0 }, rr::RrOp::EndRep { k: 0xFFFF },
+        rr::RrOp::Block { i: 0xFFFF }, rr::RrOp::Unblock { i: 0xFFFF }, rr::RrOp::Run, rr::RrOp::Settle,
+    ];
+    rr_exhaustive(ctx, "rr-repliers-exhaustive", &alpha, ctx.tier.pick(5, 7), RrOpts { probe: true }, c10_nontrivial);
+}
+
+pub fn c09_ps_nontrivial(f: &PsFacts) -> bool { f.router_pendings >= 2 || f.one_sided }
+pub fn c09_rr_nontrivial(f: &RrFacts) -> bool { f.router_pendings >= 2 || f.one_sided }
+
+pub fn c09(ctx: &mut Ctx) {
+    ctx.rule = "both routers under a strictly wake-driven executor (only Run steps; the router is re-polled only when it was woken) plus a mixed leg with spurious polls for the spin bound; every mock call inside one poll is counted and must stay under max(50000, 16*(work+2)*(peers+4)); at quiescence every queued item of every registered stream has been pulled, every healthy sink is flushed, every registration was processed, and closing the channel completes the future; non-trivial = the router returned Pending at least twice or the population is one-sided (nobody / only publishers / only subscribers / only a replier / only requestors)".into();
+    ctx.assumptions.push("mocks honour the waker contract strictly: they wake exactly the last waker they were given when they become ready".into());
+    ctx.assumptions.push("a loop that calls no mock at all is only caught by the watchdog (exit 2)".into());
+    let g = PsGen { faults: false, close: false, wake_only: true, max_len: 50 };
+    ctx.search("ps-wake-only", move || ps::case_strategy(g), ctx.tier.pick(80_000, 2_000_000), true, ps_eval(c09_ps_nontrivial));
+    if ctx.failed() { return; }
+    let g = PsGen { faults: true, close: true, wake_only: false, max_len: 50 };
+    ctx.search("ps-spin", move || ps::case_strategy(g), ctx.tier.pick(40_000, 1_000_000), true, ps_eval(c09_ps_nontrivial));
+    if ctx.failed() { return; }
+    let g = RrGen { faults: false, close: false, wake_only: true, junk: false, big: false, many_repliers: false, max_len: 50, prelude: false };
+    ctx.search("rr-wake-only", move || rr::case_strategy(g), ctx.tier.pick(80_000, 2_000_000), true, rr_eval(RrOpts::default(), c09_rr_nontrivial));
+    if ctx.failed() { return; }
+    let g = RrGen { many_repliers: true, ..g };
+    ctx.search("rr-wake-only-repliers", move || rr::case_strategy(g), ctx.tier.pick(40_000, 1_000_000), true, rr_eval(RrOpts::default(), c09_rr_nontrivial));
+    if ctx.failed() { return; }
+    let g = RrGen { faults: true, close: true, wake_only: false, junk: false, big: false, many_repliers: false, max_len: 50, prelude: false };
+    ctx.search("rr-spin", move || rr::case_strategy(g), ctx.tier.pick(40_000, 1_000_000), true, rr_eval(RrOpts::default(), c09_rr_nontrivial));
+    if ctx.failed() { return; }
+    // one-sided populations, exhaustively: sequences over one-sided alphabets
+    let ps_only_pubs = vec![ps::PsOp::RegPub, ps::PsOp::Send { p: 0, k: 0 }, ps::PsOp::Send { p: 0xFFFF, k: 1 }, ps::PsOp::EndPub { p: 0 }, ps::PsOp::Run, ps::PsOp::Poll];
+    ps_exhaustive(ctx, "ps-only-publishers", &ps_only_pubs, ctx.tier.pick(6, 8), c09_ps_nontrivial);
+    if ctx.failed() { return; }
+    let ps_only_subs = vec![ps::PsOp::RegSub { cap: 0 }, ps::PsOp::RegSub { cap: 3 }, ps::PsOp::Block { s: 0 }, ps::PsOp::Unblock { s: 0 }, ps::PsOp::Run, ps::PsOp::Poll];
+    ps_exhaustive(ctx, "ps-only-subscribers", &ps_only_subs, ctx.tier.pick(6, 8), c09_ps_nontrivial);
+    if ctx.failed() { return; }
+    let rr_only_rep = vec![rr::RrOp::RegRep { cap: 0 }, rr::RrOp::EndRep { k: 0 }, rr::RrOp::Block { i: 0 }, rr::RrOp::Unblock { i: 0 }, rr::RrOp::Run, rr::RrOp::Poll];
+    rr_exhaustive(ctx, "rr-only-repliers", &rr_only_rep, ctx.tier.pick(6, 8), RrOpts::default(), c09_rr_nontrivial);
+    if ctx.failed() { return; }
+    let rr_only_req = vec![rr::RrOp::RegReq { cap: 0 }, rr::RrOp::Request { r: 0, hdr: 0 }, rr::RrOp::EndReq { r: 0 }, rr::RrOp::Block { i: 0 }, rr::RrOp::Run, rr::RrOp::Poll];
+    rr_exhaustive(ctx, "rr-only-requestors", &rr_only_req, ctx.tier.pick(6, 8), RrOpts::default(), c09_rr_nontrivial);
+}
+
+pub fn c16_ps_nontrivial(f: &PsFacts) -> bool { f.closed && f.close_with_peers && (f.close_with_blocked_or_buffered || f.close_after_socket) }
+pub fn c16_rr_nontrivial(f: &RrFacts) -> bool { f.closed && f.close_with_peers && (f.close_with_blocked_or_buffered || f.close_after_socket || f.one_sided) }
+
+pub fn c16(ctx: &mut Ctx) {
+    ctx.rule = "router histories with CloseChannel (what Server::shutdown calls) inserted at a generated position, followed by more sends/blocks/unblocks; closing phase unblocks every sink and runs wake-driven; oracle: the future completes (bounded polls) and, for pub/sub, every frame pulled from a publisher is on the wire of every healthy adopted subscriber exactly once in order and nothing is left unflushed; non-trivial = close happened while >=1 peer was registered and (a sink was blocked or had buffered data, or the previous op was a registration, or (req/rep) only one side was connected)".into();
+    ctx.assumptions.push("world B does not include Server::shutdown's join_all; req/rep only promises termination (buffered requests/replies at shutdown are not claimed)".into());
+    let g = PsGen { faults: false, close: true, wake_only: false, max_len: 50 };
+    ctx.search("ps-close", move || ps::case_strategy(g), ctx.tier.pick(100_000, 3_000_000), true, ps_eval(c16_ps_nontrivial));
+    if ctx.failed() { return; }
+    let g = PsGen { faults: false, close: true, wake_only: true, max_len: 50 };
+    ctx.search("ps-close-wake-only", move || ps::case_strategy(g), ctx.tier.pick(60_000, 1_500_000), true, ps_eval(c16_ps_nontrivial));
+    if ctx.failed() { return; }
+    let g = RrGen { faults: false, close: true, wake_only: false, junk: false, big: false, many_repliers: false, max_len: 50, prelude: false };
+    ctx.search("rr-close", move || rr::case_strategy(g), ctx.tier.pick(100_000, 3_000_000), true, rr_eval(RrOpts::default(), c16_rr_nontrivial));
+    if ctx.failed() { return; }
+    let g = RrGen { wake_only: true, many_repliers: true, ..g };
+    ctx.search("rr-close-wake-only", move || rr::case_strategy(g), ctx.tier.pick(60_000, 1_500_000), true, rr_eval(RrOpts::default(), c16_rr_nontrivial));
+    if ctx.failed() { return; }
+    let alpha = ps::small_alphabet(true, false);
+    ps_exhaustive(ctx, "ps-close-exhaustive", &alpha, ctx.tier.pick(5, 7), c16_ps_nontrivial);
+    if ctx.failed() { return; }
+    let alpha = rr::small_alphabet(true);
+    rr_exhaustive(ctx, "rr-close-exhaustive", &alpha, ctx.tier.pick(5, 6), RrOpts::default(), c16_rr_nontrivial);
+}
+
+pub fn replay_rr(ctx_id: &str, leg: &str, case: &serde_json::Value) -> i32 {
+    let probe = leg.contains("repliers") || leg.contains("faults") || leg.contains("frames");
+    crate::core::replay_case::<RrCase>(ctx_id, case, 64, move |c| rr::run_case(c, RrOpts { probe }).0)
+}
+
+// ---------------------------------------------------------------- C08
+fn d_labels(c: &DCase, f: &DFacts) -> Vec<&'static str> {
+    let mut l = vec![];
+    l.push(if c.router { "router" } else { "fanout" });
+    if f.faults_observed > 0 { l.push("fault-observed"); }
+    if f.fail_first { l.push("failed-member-first"); }
+    if f.fail_middle { l.push("failed-member-middle"); }
+    if f.fail_last { l.push("failed-member-last"); }
+    if f.fail_at[1] { l.push("fail-at-poll_ready"); }
+    if f.fail_at[2] { l.push("fail-at-start_send"); }
+    if f.fail_at[3] { l.push("fail-at-poll_flush"); }
+    if f.pendings > 0 { l.push("member-returned-pending"); }
+    l
+}
+pub fn d_eval(c: &DCase) -> Outcome {
+    crate::core::watchdog::tick();
+    let (o, f) = direct::run_case(c);
+    match o {
+        Outcome::Pass { .. } => Outcome::pass(d_labels(c, &f), f.faults_observed > 0 && f.healthy > 0 && f.delivered > 0),
+        o => o,
+    }
+}
+fn ps_fault_labels(f: &PsFacts) -> Vec<&'static str> {
+    let mut l = ps_labels(f);
+    if f.fault_at[1] > 0 { l.push("fail-at-poll_ready"); }
+    if f.fault_at[2] > 0 { l.push("fail-at-start_send"); }
+    if f.fault_at[3] > 0 { l.push("fail-at-poll_flush"); }
+    if f.fault_pos_first > 0 { l.push("failed-subscriber-first"); }
+    if f.fault_pos_middle > 0 { l.push("failed-subscriber-middle"); }
+    if f.fault_pos_last > 0 { l.push("failed-subscriber-last"); }
+    l
+}
+fn rr_fault_labels(f: &RrFacts) -> Vec<&'static str> {
+    let mut l = rr_labels(f);
+    if f.fault_at[1] > 0 { l.push("fail-at-poll_ready"); }
+    if f.fault_at[2] > 0 { l.push("fail-at-start_send"); }
+    if f.fault_at[3] > 0 { l.push("fail-at-poll_flush"); }
+    if f.fault_role_req > 0 { l.push("requestor-failed"); }
+    if f.fault_role_rep > 0 { l.push("replier-failed"); }
+    l
+}
+
+pub fn c08(ctx: &mut Ctx) {
+    ctx.rule = "fault x position x operation generation: (a) FanoutMany and Router driven directly through the Sink contract with member sinks that fail at poll_ready/start_send/poll_flush or block, (b) both routers with the C01/C02 alphabets plus Fail(peer, at) for subscriber/requestor/replier sinks (optionally the whole connection: the peer's stream also errors and ends) and stream errors/ends, followed by a probe exchange; oracle: no panic, every never-failed sink satisfies the full delivery oracle over the whole history, a new replier can bind and serve after a replier failure; non-trivial = the code under test was actually handed an Err by a mock sink while >=1 healthy sibling existed and received data".into();
+    ctx.assumptions.push("a failed sink keeps failing (a broken connection does not heal); a sink failure wakes its waiter".into());
+    ctx.search("fanout-direct", || direct::case_strategy(false), ctx.tier.pick(60_000, 2_000_000), true, d_eval);
+    if ctx.failed() { return; }
+    ctx.search("router-direct", || direct::case_strategy(true), ctx.tier.pick(60_000, 2_000_000), true, d_eval);
+    if ctx.failed() { return; }
+    let g = PsGen { faults: true, close: false, wake_only: false, max_len: 60 };
+    ctx.search("ps-faults", move || ps::case_strategy(g), ctx.tier.pick(100_000, 3_000_000), true, |c: &PsCase| {
+        crate::core::watchdog::tick();
+        let (o, f) = ps::run_case(c);
+        match o { Outcome::Pass { .. } => Outcome::pass(ps_fault_labels(&f), f.faults_observed_with_healthy_sibling > 0 && f.subs_received > 0), o => o }
+    });
+    if ctx.failed() { return; }
+    let g = RrGen { faults: true, close: false, wake_only: false, junk: false, big: false, many_repliers: true, max_len: 60, prelude: false };
+    ctx.search("rr-faults", move || rr::case_strategy(g), ctx.tier.pick(100_000, 3_000_000), true, |c: &RrCase| {
+        crate::core::watchdog::tick();
+        let (o, f) = rr::run_case(c, RrOpts { probe: true });
+        match o { Outcome::Pass { .. } => Outcome::pass(rr_fault_labels(&f), f.faults_observed > 0 && (f.replies_delivered > 0 || f.probe_ok)), o => o }
+    });
+    if ctx.failed() { return; }
+    let alpha = ps::small_alphabet(false, true);
+    ps_exhaustive(ctx, "ps-faults-exhaustive", &alpha, ctx.tier.pick(5, 6), |f| f.faults_observed_with_healthy_sibling > 0);
+}
+
+pub fn replay_d(ctx_id: &str, case: &serde_json::Value) -> i32 {
+    crate::core::replay_case::<DCase>(ctx_id, case, 4, |c| direct::run_case(c).0)
+}
